@@ -12,13 +12,13 @@ ev=/tmp/evb-${BID:-$prop}
 git -C /repo worktree remove --force $ev 2>/dev/null
 git -C /repo worktree add -q $ev HEAD || exit 2
 ( cd $ev && git apply $dst/patch.diff ) || { echo "patch does not apply"; git -C /repo worktree remove --force $ev; exit 2; }
-( cd $ev && go build ./... && go test -vet=off -count=1 ./... > /tmp/evb-$prop.suite.log 2>&1 ); echo "suite with the rewrite: exit $?"
+( cd $ev && go build ./... && go test -vet=off -count=1 ./... > /tmp/evb-${BID:-$prop}.suite.log 2>&1 ); echo "suite with the rewrite: exit $?"
 for p in $prop $others; do
-  out=/verif/.work/seedruns/benign-$prop-$p; rm -rf $out; mkdir -p $out
-  cd /verif && VERIF_REPO=$ev VERIF_OUTDIR=$out VERIF_TIMEOUT=${VERIF_TIMEOUT:-1200} ./verif check $p --tier $tier > /tmp/evb-$prop-$p.check.log 2>&1; rc=$?
-  grep -E "VIOLATION|OK property|INCONCLUSIVE|KNOWN|^\[C" /tmp/evb-$prop-$p.check.log | cut -c1-160 | head -6
+  out=/verif/.work/seedruns/${BID:-benign-$prop}-$p; rm -rf $out; mkdir -p $out
+  cd /verif && VERIF_REPO=$ev VERIF_OUTDIR=$out VERIF_TIMEOUT=${VERIF_TIMEOUT:-1200} ./verif check $p --tier $tier > /tmp/evb-${BID:-$prop}-$p.check.log 2>&1; rc=$?
+  grep -E "VIOLATION|OK property|INCONCLUSIVE|KNOWN|^\[C" /tmp/evb-${BID:-$prop}-$p.check.log | cut -c1-160 | head -6
   echo "check $p exit $rc"
-  for f in $(grep -o "replay=[^ ]*" /tmp/evb-$prop-$p.check.log | sed 's/replay=//' | head -3); do python3 -c "
+  for f in $(grep -o "replay=[^ ]*" /tmp/evb-${BID:-$prop}-$p.check.log | sed 's/replay=//' | head -3); do python3 -c "
 import json,sys,os
 p='$f'
 p=p if os.path.isabs(p) else os.path.join('/verif',p)
